@@ -269,6 +269,10 @@ def check_C15(tier, seed):
     corpus.append(("restriction:leftrec without Clone", "@export @leftrec A = A 'x' | 'b';", "Debug", "any"))
     for t in HOSTILE:
         corpus.append(("hostile:" + t[:30], t, "-", "any"))
+    # "all derive sets": names that are not usable identifiers must give an error, never a panic
+    for der in ["Debug,,Clone", ",", "Debug,", " ", "1x", "a b", "serde::Serialize", "Clone,Clone", "é", "_", "Self", "r#fn", "Debug,Clone,PartialEq,Eq,Hash,PartialOrd,Ord,Default", "x" * 500]:
+        for t in ["@export A = 'a' b:B; B = 'b';", "@export @memoize A = x:B | x:C; B = 'b'; C = 'c';", "@char C = 'a';"]:
+            corpus.append(("derives:%r" % der[:20], t, der, "any"))
     depths = [10, 100, 1000] if tier == "quick" else [10, 100, 1000, 3000]
     for lab, t in deep_nesting(depths):
         corpus.append(("deep:" + lab, t, "-", "any"))
